@@ -85,30 +85,22 @@ theorem strip_take_ne_nil (s : Str) (n : Nat) (h : (strip s).take n ≠ []) : st
 
 -- _unquote_unescape -------------------------------------------------------------------------------------------------------
 
-/-- `_unquote_unescape` raises IndexError exactly on a non-empty argument that strips to nothing (F8) -/
-theorem unquoteUnescape_err (t : Str) : Err3 (t ≠ [] ∧ strip t = []) False (unquoteUnescape t) := by
+/-- `_unquote_unescape` (which strips first and returns on an empty result — the F8 repair) raises only ValueError -/
+theorem unquoteUnescape_safe_all (t : Str) : Safe (unquoteUnescape t) := by
   intro e he
   unfold unquoteUnescape at he
-  by_cases h0 : t.isEmpty = true
-  · simp [h0] at he
-  · simp only [h0, Bool.false_eq_true, ↓reduceIte] at he
-    split at he
-    · next hs =>
-      cases he
-      exact Or.inr (Or.inl ⟨rfl, by intro e; simp [e] at h0, hs⟩)
+  simp only [] at he
+  split at he
+  · cases he
+  · split at he
+    · cases he
     · split at he
-      · cases he; exact Or.inl rfl
+      · cases he; rfl
       · cases he
     · cases he
 
-theorem unquoteUnescape_safe (t : Str) (h : t = [] ∨ strip t ≠ []) : Safe (unquoteUnescape t) := by
-  intro e he
-  rcases unquoteUnescape_err t e he with h1 | ⟨_, h2, h3⟩ | ⟨_, h2⟩
-  · exact h1
-  · rcases h with h | h
-    · exact absurd h h2
-    · exact absurd h3 h
-  · exact absurd h2 id
+theorem unquoteUnescape_safe (t : Str) (_h : t = [] ∨ strip t ≠ []) : Safe (unquoteUnescape t) :=
+  unquoteUnescape_safe_all t
 
 -- the scanner: decomposition of a hit ----------------------------------------------------------------------------------
 
@@ -557,9 +549,6 @@ theorem safe_parseValue (pyInt : Str → Option Int) (pyFloat : Str → Option N
       · cases he
       · cases he; rfl
 
-/-- some integer the `int()` parameter returns is too large for `/ 1000` -/
-def HugeInt (pyInt : Str → Option Int) : Prop := ∃ s n, pyInt s = some n ∧ intDivOverflows n = true
-
 theorem parseValue_int (pyInt : Str → Option Int) (pyFloat : Str → Option Nat) (v : Str) (n : Int)
     (h : parseValue pyInt pyFloat v = .ok (.int n)) : pyInt v = some n := by
   unfold parseValue at h
@@ -569,37 +558,38 @@ theorem parseValue_int (pyInt : Str → Option Int) (pyFloat : Str → Option Na
     · next m hm => cases h; exact hm
     · split at h <;> cases h
 
-theorem err3_divThousand (pyInt : Str → Option Int) (pyFloat : Str → Option Nat) (v : Str) (t : Num)
-    (h : parseValue pyInt pyFloat v = .ok t) (P : Prop) : Err3 P (HugeInt pyInt) (divThousand t) := by
+/-- `x / 1000` raises only ValueError: the OverflowError of a huge int is caught and re-raised (this is where the
+re-extracted flag `tsOverflowToValueError` is used; without the handler the proof does not go through) -/
+theorem safe_divThousand (t : Num) : Safe (divThousand t) := by
   intro e he
   cases t with
   | flt b => cases he
   | int n =>
     by_cases ho : intDivOverflows n = true
-    · have : divThousand (.int n) = .error .overflowError := by simp only [divThousand, ho, ↓reduceIte]
-      rw [this] at he; cases he
-      exact Or.inr (Or.inr ⟨rfl, v, n, parseValue_int _ _ _ _ h, ho⟩)
+    · have hflag : PromVerif.Generated.TextParse.tsOverflowToValueError = true := rfl
+      have : divThousand (.int n) = .error .valueError := by simp only [divThousand, ho, hflag, ↓reduceIte]
+      rw [this] at he; cases he; rfl
     · have : divThousand (.int n) = .ok ⟨.int n⟩ := by simp only [divThousand, ho, Bool.false_eq_true, ↓reduceIte]
       rw [this] at he; cases he
 
-theorem err3_pvt (pyInt : Str → Option Int) (pyFloat : Str → Option Nat) (s : Str) (P : Prop) :
-    Err3 P (HugeInt pyInt) (parseValueAndTimestamp pyInt pyFloat s) := by
+theorem safe_pvt (pyInt : Str → Option Int) (pyFloat : Str → Option Nat) (s : Str) :
+    Safe (parseValueAndTimestamp pyInt pyFloat s) := by
   unfold parseValueAndTimestamp
   simp only []
   split
   · split
-    · exact (safe_ok _).err3
-    · exact safe_valueError.err3
-  · apply err3_bind (safe_parseValue _ _ _).err3
+    · exact (safe_ok _)
+    · exact safe_valueError
+  · apply safe_bind (safe_parseValue _ _ _)
     intro value _
     split
-    · exact (safe_pure _).err3
+    · exact (safe_pure _)
     · next vl _ =>
-      apply err3_bind (safe_parseValue _ _ _).err3
+      apply safe_bind (safe_parseValue _ _ _)
       intro t ht
-      apply err3_bind (err3_divThousand pyInt pyFloat vl t ht P)
+      apply safe_bind (safe_divThousand t)
       intro _ _
-      exact (safe_pure _).err3
+      exact (safe_pure _)
 
 
 -- _parse_sample -----------------------------------------------------------------------------------------------------------
@@ -666,18 +656,18 @@ theorem noRB_label_block (text : Str) (ls : Nat) (h1 : nextUnquotedChar text (·
       rw [List.length_take]; omega
     rw [this]; exact noRB_nil
 
-theorem err3_parseSample (legacy : Bool) (pyInt : Str → Option Int) (pyFloat : Str → Option Nat) (text : Str) (P : Prop) :
-    Err3 P (HugeInt pyInt) (parseSample legacy pyInt pyFloat text) := by
-  have hbare : Err3 P (HugeInt pyInt)
+theorem safe_parseSample (legacy : Bool) (pyInt : Str → Option Int) (pyFloat : Str → Option Nat) (text : Str) :
+    Safe (parseSample legacy pyInt pyFloat text) := by
+  have hbare : Safe
       (if !isValidLegacyMetricName (strip (sliceTo text (nextUnquotedChar text (fun c => c == ' ' || c == '\t')))) then
         (.error .valueError : PyM PSample)
        else do
         let (value, ts) ← parseValueAndTimestamp pyInt pyFloat (sliceAfter text (nextUnquotedChar text (fun c => c == ' ' || c == '\t')))
         pure ⟨strip (sliceTo text (nextUnquotedChar text (fun c => c == ' ' || c == '\t'))), [], value, ts⟩) := by
     split
-    · exact safe_valueError.err3
-    · apply err3_bind (err3_pvt _ _ _ _)
-      intro _ _; exact (safe_pure _).err3
+    · exact safe_valueError
+    · apply safe_bind (safe_pvt _ _ _)
+      intro _ _; exact (safe_pure _)
   unfold parseSample
   cases hls : nextUnquotedChar text (· == '{') with
   | none => simp only [↓reduceIte]; exact hbare
@@ -686,19 +676,19 @@ theorem err3_parseSample (legacy : Bool) (pyInt : Str → Option Int) (pyFloat :
     by_cases hinf : isInfix sepHash (text.take ls) = true
     · simp only [hinf, ↓reduceIte]; exact hbare
     · simp only [hinf, Bool.false_eq_true, ↓reduceIte]
-      apply err3_bind (parseLabels_safe legacy _ (noRB_label_block text ls hls)).err3
+      apply safe_bind (parseLabels_safe legacy _ (noRB_label_block text ls hls))
       intro labels _
-      apply err3_bind
+      apply safe_bind
       · split
         · split
-          · exact safe_throw.err3
-          · exact (safe_pure _).err3
+          · exact safe_throw
+          · exact (safe_pure _)
         · split
-          · exact safe_throw.err3
-          · exact (safe_pure _).err3
+          · exact safe_throw
+          · exact (safe_pure _)
       · intro _ _
-        apply err3_bind (err3_pvt _ _ _ _)
-        intro _ _; exact (safe_pure _).err3
+        apply safe_bind (safe_pvt _ _ _)
+        intro _ _; exact (safe_pure _)
 
 
 -- the family state machine ---------------------------------------------------------------------------------------------
@@ -717,107 +707,73 @@ theorem safe_flush (legacy : Bool) (st : St) : Safe (flush legacy st) := by
   apply safe_bind (safe_buildMetric _ _ _ _ _)
   intro _ _; exact safe_pure _
 
-/-- the F8 trigger: a metadata line (first non-blank character '#') whose third whitespace-separated token is not empty
-but consists only of characters `str.strip()` removes — necessarily non-ASCII whitespace (U+00A0, U+001C–U+001F, U+0085,
-U+2028 …), since the tokeniser splits on ASCII whitespace -/
-def blankMetaToken (rawLine : Str) : Bool :=
-  let line := strip rawLine
-  line.head? == some '#' &&
-    (match (splitQuoted line isAsciiSpace 3)[2]? with
-     | some p2 => !p2.isEmpty && (strip p2).isEmpty
-     | none => false)
-
-theorem err3_stepLine (legacy : Bool) (pyInt : Str → Option Int) (pyFloat : Str → Option Nat) (st : St) (rawLine : Str) :
-    Err3 (blankMetaToken rawLine = true) (HugeInt pyInt) (stepLine legacy pyInt pyFloat st rawLine) := by
+theorem safe_stepLine (legacy : Bool) (pyInt : Str → Option Int) (pyFloat : Str → Option Nat) (st : St) (rawLine : Str) :
+    Safe (stepLine legacy pyInt pyFloat st rawLine) := by
   unfold stepLine
   simp only []
   by_cases hh : ((strip rawLine).head? == some '#') = true
   · simp only [hh, ↓reduceIte]
     split
-    · exact (safe_pure _).err3
-    · apply err3_bind
-      · -- candidate name
-        cases hp : (splitQuoted (strip rawLine) isAsciiSpace 3)[2]? with
-        | none => exact (safe_pure _).err3
+    · exact safe_pure _
+    · apply safe_bind
+      · cases hp : (splitQuoted (strip rawLine) isAsciiSpace 3)[2]? with
+        | none => exact safe_pure _
         | some p2 =>
           simp only []
-          apply err3_bind
-          · intro e he
-            rcases unquoteUnescape_err p2 e he with h | ⟨h1, h2, h3⟩ | ⟨_, h⟩
-            · exact Or.inl h
-            · refine Or.inr (Or.inl ⟨h1, ?_⟩)
-              unfold blankMetaToken
-              simp only [hh, hp, Bool.true_and, Bool.and_eq_true, Bool.not_eq_true', List.isEmpty_iff]
-              exact ⟨by cases p2 <;> simp at h2 ⊢, h3⟩
-            · exact absurd h id
-          · intro x _
-            obtain ⟨c, quoted⟩ := x
-            simp only []
-            exact (safe_ite (safe_throw_bind _) (safe_pure _)).err3
+          apply safe_bind (unquoteUnescape_safe_all p2)
+          intro x _
+          obtain ⟨c, quoted⟩ := x
+          simp only []
+          exact safe_ite (safe_throw_bind _) (safe_pure _)
       · intro x _
         obtain ⟨candidate, _⟩ := x
         simp only []
         split
-        · apply Safe.err3
-          apply safe_bind
+        · apply safe_bind
           · split
             · apply safe_bind (safe_flush _ _); intro _ _; exact safe_pure _
             · exact safe_pure _
           · intro _ _; exact safe_pure _
         · split
           · split
-            · exact safe_throw.err3
-            · apply Safe.err3
-              apply safe_bind
+            · exact safe_throw
+            · apply safe_bind
               · split
                 · apply safe_bind (safe_flush _ _); intro _ _; exact safe_pure _
                 · exact safe_pure _
               · intro _ _; exact safe_pure _
-          · exact (safe_pure _).err3
+          · exact safe_pure _
   · simp only [hh, Bool.false_eq_true, ↓reduceIte]
     split
-    · exact (safe_pure _).err3
-    · apply err3_bind (err3_parseSample _ _ _ _ _)
+    · exact safe_pure _
+    · apply safe_bind (safe_parseSample _ _ _ _)
       intro sample _
       split
-      · apply Safe.err3
-        apply safe_bind (safe_flush _ _)
+      · apply safe_bind (safe_flush _ _)
         intro _ _
         apply safe_bind (safe_buildMetric _ _ _ _ _)
         intro _ _; exact safe_pure _
-      · exact (safe_pure _).err3
+      · exact safe_pure _
 
-theorem err3_runLines (legacy : Bool) (pyInt : Str → Option Int) (pyFloat : Str → Option Nat) :
-    ∀ (ls : List Str) (st : St) (acc : List PFamily),
-      Err3 (∃ l ∈ ls, blankMetaToken l = true) (HugeInt pyInt) (runLines legacy pyInt pyFloat ls st acc) := by
+theorem safe_runLines (legacy : Bool) (pyInt : Str → Option Int) (pyFloat : Str → Option Nat) :
+    ∀ (ls : List Str) (st : St) (acc : List PFamily), Safe (runLines legacy pyInt pyFloat ls st acc) := by
   intro ls
   induction ls with
-  | nil => intro st acc; exact (safe_pure _).err3
+  | nil => intro st acc; exact safe_pure _
   | cons l ls ih =>
     intro st acc
     rw [runLines]
-    apply err3_bind
-    · intro e he
-      rcases err3_stepLine legacy pyInt pyFloat st l e he with h | ⟨h1, h2⟩ | h
-      · exact Or.inl h
-      · exact Or.inr (Or.inl ⟨h1, l, by simp, h2⟩)
-      · exact Or.inr (Or.inr h)
-    · intro x _
-      obtain ⟨st', out⟩ := x
-      intro e he
-      rcases ih st' (acc ++ out) e he with h | ⟨h1, l', hl', h2⟩ | h
-      · exact Or.inl h
-      · exact Or.inr (Or.inl ⟨h1, l', by simp [hl'], h2⟩)
-      · exact Or.inr (Or.inr h)
+    apply safe_bind (safe_stepLine _ _ _ _ _)
+    intro x _
+    exact ih _ _
 
-/-- every way `list(text_string_to_metric_families(text))` can end, for every input and every `int()`/`float()` -/
-theorem err3_textParse (legacy : Bool) (pyInt : Str → Option Int) (pyFloat : Str → Option Nat) (text : Str) :
-    Err3 (∃ l ∈ splitLines text, blankMetaToken l = true) (HugeInt pyInt) (textParse legacy pyInt pyFloat text) := by
+/-- **`list(text_string_to_metric_families(text))` ends in families or ValueError** — every input, every `int()`/`float()` -/
+theorem safe_textParse (legacy : Bool) (pyInt : Str → Option Int) (pyFloat : Str → Option Nat) (text : Str) :
+    Safe (textParse legacy pyInt pyFloat text) := by
   unfold textParse
-  apply err3_bind (err3_runLines _ _ _ _ _ _)
+  apply safe_bind (safe_runLines _ _ _ _ _ _)
   intro x _
   obtain ⟨st, acc⟩ := x
-  apply Safe.err3
   apply safe_bind (safe_flush _ _)
   intro _ _; exact safe_pure _
 
